@@ -354,6 +354,35 @@ def gen_case(rng, base, i, features):
                      "chain": t.has_chain, "special": t.has_special, "unknown_alg": unknown, "nlinks": len(t.links), "nfiles": len(t.files)}}
 
 
+def fixed_prefix_cases(base):
+    """directories named like the strip prefix inside the strip prefix (d/d/f, out/out/out/g), several nested prefixes that all
+    match (the longest goes), a prefix that is also the beginning of a file name: a prefix is removed once, from the start"""
+    out = []
+    layouts = [
+        ({"d/d/f": b"1", "d/d/d/g": b"2", "d/x": b"3", "dd/y": b"4", "d": None}, ["d/"], ["."]),
+        ({"out/out/out/g": b"5", "out/outfile": b"6", "out/out.txt": b"7"}, ["out/"], ["out"]),
+        ({"root/pkg/src/main.rs": b"8", "root/pkg/a": b"9", "root/zzz": b"10"}, ["root/", "root/pkg/"], ["root"]),
+        ({"root/pkg/src/main.rs": b"8", "root/pkg/a": b"9", "root/zzz": b"10"}, ["root/pkg/", "root/"], ["."]),
+        ({"a/a/a/a": b"11", "a/b": b"12"}, ["a/", "a/a/"], ["a"]),
+        ({"ab/ab/c": b"13", "ab/abc": b"14"}, ["ab"], ["ab"]),
+    ]
+    for j, (files, lstrip, args) in enumerate(layouts):
+        root = os.path.join(base, f"fixed{j}")
+        os.makedirs(root)
+        nfiles = 0
+        for rel, data in files.items():
+            if data is None:
+                continue
+            os.makedirs(os.path.dirname(os.path.join(root, rel)), exist_ok=True)
+            with open(os.path.join(root, rel), "wb") as fh:
+                fh.write(data * 100)
+            nfiles += 1
+        out.append({"op": "record", "cwd": root, "paths": args, "algs": None, "lstrip": lstrip,
+                    "meta": {"features": ["fixed_prefix"], "overlap": False, "rel_link": False, "chain": False, "special": False,
+                             "unknown_alg": False, "nlinks": 0, "nfiles": nfiles}})
+    return out
+
+
 def shard(binpath, seed, sh, n):
     rng = common.rng_for(seed, PROP, sh)
     res = common.Result()
@@ -363,6 +392,8 @@ def shard(binpath, seed, sh, n):
     for i in range(n):
         features = rng.choice([set(), {"symlinks"}, {"symlinks"}, {"symlinks", "cycles"}])
         cases.append(gen_case(rng, base, i, features))
+    if sh == 0:
+        cases += fixed_prefix_cases(base)
     obs = common.run_batch(binpath, cases, keys=False, cpu_s=120, wall_s=600)
     for c, o in zip(cases, obs):
         r = judge(c, o, res)
@@ -486,6 +517,6 @@ def main(ctx):
              "nested, non-matching, colliding) x algorithm selections; plus in_toto_run with commands of known effect; "
              "non-trivial = tree has files; distinct by (tree listing, arguments)",
         assumptions=["the independent walk (os.stat / os.listdir / hashlib) is the reference", "os.path.normpath == path normalisation on the generated arguments"],
-        required=["outcome:ok", "tree:plain", "tree:symlinks", "tree:cyclic", "args:overlap", "lstrip:yes", "algs:sha256+sha512",
+        required=["tree:fixed_prefix", "outcome:ok", "tree:plain", "tree:symlinks", "tree:cyclic", "args:overlap", "lstrip:yes", "algs:sha256+sha512",
                   "run:create", "run:delete", "run:stdout", "run:same_size_same_mtime", "tree:symlink_chain", "tree:relative_symlink_in_subdir"],
         min_evals=300)
